@@ -111,9 +111,12 @@ func c08Case(c *rep.Ctx, r c08Replay) {
 		restore = func() { os.Remove(link) }
 		target = link
 	case "symlink-dotdot":
-		// "<dir>/link-up/../target" where link-up points two levels up: taken as text it is <dir>/target
+		// "<dir>/link-up/../target" where link-up points to <dir>/sibling/deep: taken as text it is <dir>/target, while
+		// following the link first leads to <dir>/sibling/target (which exists as well)
 		link := filepath.Join(filepath.Dir(j.Target), "link-up")
-		os.Symlink(filepath.Join(j.Root, "p"), link)
+		os.MkdirAll(filepath.Join(filepath.Dir(j.Target), "sibling", "deep"), 0o755)
+		os.MkdirAll(filepath.Join(filepath.Dir(j.Target), "sibling", "target"), 0o755)
+		os.Symlink(filepath.Join(filepath.Dir(j.Target), "sibling", "deep"), link)
 		restore = func() { os.Remove(link) }
 		target = link + "/../target"
 	case "dot", "dot-given-last":
